@@ -166,6 +166,17 @@ fn main() {
             let sc: Scenario = serde_json::from_value(v["scenario"].clone()).expect("scenario");
             debug_ir(&sc);
         }
+        Some("hashprobe") => {
+            // self-test of the getrandom shim: iteration order of fresh maps in a fresh thread
+            let h = std::thread::spawn(|| {
+                let m: std::collections::HashSet<u32> = (0..64).collect();
+                let a: Vec<String> = m.iter().take(8).map(|x| x.to_string()).collect();
+                let m2: std::collections::HashMap<String, u32> = (0..64).map(|i| (format!("k{}", i), i)).collect();
+                let b: Vec<String> = m2.keys().take(4).cloned().collect();
+                format!("{} | {}", a.join(","), b.join(","))
+            });
+            println!("{}", h.join().unwrap());
+        }
         Some("gen") => {
             let prop = arg(&args, "--prop").expect("--prop");
             let seed: u64 = arg(&args, "--seed").unwrap_or("1").parse().unwrap();
